@@ -9,10 +9,12 @@ TRUSTED = [
     "curve constants (p, a, d, G, r, h) are read from the running library (context line ed_param); the driver evaluates generator on curve, "
     "r*G = O, G != O, h = 8 and the orders of the 2-, 4- and 8-torsion points it computes itself; primality of p and r is NOT established "
     "here (ed25519: well-known; not in the C18 tables, which cover the prime-curve parameter files)",
-    "class C (compared with the specification on the presented lines only): the comb methods ed_mul_fix_combs / ed_mul_fix_combd, "
-    "ed_mul_sim_lot, ed_mul_dig, ed_mul_gen (= ed_mul_fix of the stored table), ed_mul_sim_gen, ed_mul_sim_basic, ed_blind, ed_on_curve, "
-    "ed_is_infty, the optimised straight-line Elligator 2 of ed_map_ell2_5mod8 (the specification is the plain RFC 9380 construction), "
-    "fp_srt / fp_inv / fp_exp (C02)",
+    "class C (compared with the specification on the presented lines only): ed_mul_fix_combd, ed_mul_sim_lot, ed_blind, ed_on_curve, "
+    "ed_size_bin, ed_curve_get_gen, hashing to the curve (ed_map, ed_map_dst: the specification is the plain RFC 9380 construction — "
+    "expand_message_xmd, Elligator 2, birational map, cofactor clearing — and the result is also required to satisfy r*P = O; the optimised "
+    "straight-line code of ed_map_ell2_5mod8 is not modelled), fp_srt / fp_inv / fp_exp (C02)",
+    "modelled and compared, without a theorem of their own: ed_is_infty (hand-written predicate), the dispatch of ed_mul_gen / ed_mul_sim_gen "
+    "(incl. the generator-table branch of ed_mul_sim_plain), ed_mul_dig (= the binary-NAF loop of ed_mul_basic on one digit)",
     "the theorems about scalar multiplication are over the abstract commutative group killed by r, instantiated in the correspondence by the "
     "curve points; that the affine law IS a group law (associativity) is the classical theorem about twisted Edwards curves and is not "
     "re-proved here (Mathlib has no Edwards model); commutativity, neutral element, inverse and closure under the complete law are proved",
